@@ -850,18 +850,32 @@ func c20Names(c *Ctx) {
 				st.Transitions++
 				st.Nontrivial++
 				// a success then a drop: RTT and in-flight once per sample, the drop counter only for the drop
+				// (how a limit composes its metric names and tags is not fixed by C20: the metric is found
+				// by its last name component, whatever prefix and tags it carries)
+				_ = base
 				for metric, want := range map[string][]float64{core.MetricRTT: {2e6, 1e6}, core.MetricInFlight: {2, 3}, core.MetricDropped: {1}} {
-					key := mkey(base+metric, tags)
-					states[algo+key] = true
-					got := reg.Samples[key]
+					var got []float64
+					for _, k := range sampleKeys(reg) {
+						if metricIs(k, metric) {
+							got = append(got, reg.Samples[k]...)
+							states[algo+k] = true
+						}
+					}
 					if fmt.Sprint(got) != fmt.Sprint(want) {
-						fail(algo+"/metric-name", "%s limit named %q with tags %v: samples for %q are %v (want %v); keys present: %v", algo, nm, tags, key, got, want, sampleKeys(reg))
+						fail(algo+"/metric-samples", "%s limit named %q with tags %v: samples emitted for metric %q are %v (want %v); keys present: %v", algo, nm, tags, metric, got, want, sampleKeys(reg))
 					}
 				}
-				if g, ok := reg.Gauges[mkey(base+core.MetricLimit, tags)]; !ok {
-					fail(algo+"/limit-gauge-name", "%s limit named %q with tags %v: no gauge %q; gauges: %v", algo, nm, tags, mkey(base+core.MetricLimit, tags), reg.GaugeKeys())
-				} else if v, _ := g(); int(v) != l.EstimatedLimit() {
-					fail(algo+"/limit-gauge", "gauge reports %v, estimate %d", v, l.EstimatedLimit())
+				found := false
+				for _, k := range reg.GaugeKeys() {
+					if metricIs(k, core.MetricLimit) {
+						found = true
+						if v, _ := reg.Gauges[k](); int(v) != l.EstimatedLimit() {
+							fail(algo+"/limit-gauge", "gauge %q reports %v, estimate %d", k, v, l.EstimatedLimit())
+						}
+					}
+				}
+				if !found {
+					fail(algo+"/limit-gauge-missing", "%s limit named %q with tags %v registered no limit gauge; gauges: %v", algo, nm, tags, reg.GaugeKeys())
 				}
 			}
 		}
@@ -875,6 +889,14 @@ func c20Names(c *Ctx) {
 		return
 	}
 	c.AddBFS(st)
+}
+
+// metricIs reports whether a recording-registry key ("prefix.metric{tags}") names the given metric.
+func metricIs(key, metric string) bool {
+	if i := strings.Index(key, "{"); i >= 0 {
+		key = key[:i]
+	}
+	return key == metric || strings.HasSuffix(key, "."+metric)
 }
 
 func sampleKeys(r *RecRegistry) []string {
